@@ -200,3 +200,112 @@ def resolve(func, expr, depth=6):
                 return R(self.d - 1).visit(copy.deepcopy(defs[n.id]))
             return n
     return R(depth).visit(copy.deepcopy(expr))
+
+
+_EMPTY_CTORS = {'list': 'list', 'dict': 'dict', 'OrderedDict': 'dict', 'collections.OrderedDict': 'dict'}
+
+
+def _placeholders(target, exprs):
+    """texts of exprs with the names bound by the loop/comprehension target renamed _e0, _e1, ... in binding order"""
+    import copy
+    names = [n.id for n in ast.walk(target) if isinstance(n, ast.Name)]
+    mp = dict((nm, '_e%d' % i) for i, nm in enumerate(dict.fromkeys(names)))
+
+    class S(ast.NodeTransformer):
+        def visit_Name(self, n):
+            return ast.copy_location(ast.Name(id=mp.get(n.id, n.id), ctx=n.ctx), n)
+    return tuple(src(S().visit(copy.deepcopy(e))) for e in exprs)
+
+
+def _comp_descr(value):
+    """descriptor of an expression that builds a list / dict element by element from one iterable, or None:
+    ('list', iter text, elt text) / ('dict', iter text, (key text, value text)); bound names appear as _e0, _e1 ..."""
+    v = value
+    kind = None
+    if isinstance(v, ast.Call) and not v.keywords and len(v.args) == 1 and src(v.func) in ('list', 'tuple', 'dict', 'OrderedDict', 'collections.OrderedDict') \
+            and isinstance(v.args[0], (ast.GeneratorExp, ast.ListComp)):
+        kind = 'dict' if 'ict' in src(v.func) else 'list'
+        v = v.args[0]
+    elif isinstance(v, ast.ListComp):
+        kind = 'list'
+    elif isinstance(v, ast.DictComp):
+        kind = 'dict'
+    if kind is None or len(v.generators) != 1 or v.generators[0].ifs or v.generators[0].is_async:
+        return None
+    gen = v.generators[0]
+    if isinstance(v, ast.DictComp):
+        return ('dict', src(gen.iter), _placeholders(gen.target, [v.key, v.value]))
+    if kind == 'dict':
+        if not (isinstance(v.elt, ast.Tuple) and len(v.elt.elts) == 2):
+            return None
+        return ('dict', src(gen.iter), _placeholders(gen.target, v.elt.elts))
+    return ('list', src(gen.iter), _placeholders(gen.target, [v.elt])[0])
+
+
+def elementwise(func):
+    """{name: [(descriptor, site statement)]} for the locals of func that are built element by element from one iterable,
+    either by a comprehension (`n = [E for v in X]`, `dict((K, V) for v in X)`, `{K: V for v in X}`) or by an empty
+    container filled in a loop (`n = []` ... `for v in X: n.append(E)` / `n[K] = V`, the fill being an unconditional
+    statement of the loop body and the only change to n between the two).  See _comp_descr for the descriptor."""
+    out = {}
+
+    def lists(node):
+        for fld in ('body', 'orelse', 'finalbody'):
+            b = getattr(node, fld, None)
+            if isinstance(b, list) and b and isinstance(b[0], ast.stmt):
+                yield b
+                for st in b:
+                    if not isinstance(st, (ast.FunctionDef, ast.AsyncFunctionDef, ast.ClassDef)):
+                        for x in lists(st):
+                            yield x
+        for h in getattr(node, 'handlers', []) or []:
+            yield h.body
+            for st in h.body:
+                for x in lists(st):
+                    yield x
+
+    def touches(st, name):
+        for n in ast.walk(st):
+            if isinstance(n, ast.Name) and n.id == name and isinstance(n.ctx, (ast.Store, ast.Del)):
+                return True
+            if isinstance(n, ast.Attribute) and isinstance(n.value, ast.Name) and n.value.id == name and \
+                    n.attr in ('append', 'extend', 'insert', 'pop', 'remove', 'clear', 'update', 'setdefault', 'popitem', 'sort', 'reverse'):
+                return True
+            if isinstance(n, ast.Subscript) and isinstance(n.value, ast.Name) and n.value.id == name and isinstance(n.ctx, (ast.Store, ast.Del)):
+                return True
+        return False
+
+    for body in lists(func):
+        for i, st in enumerate(body):
+            if not (isinstance(st, ast.Assign) and len(st.targets) == 1 and isinstance(st.targets[0], ast.Name)):
+                continue
+            name = st.targets[0].id
+            d = _comp_descr(st.value)
+            if d is not None:
+                out.setdefault(name, []).append((d, st))
+                continue
+            v = st.value
+            kind = None
+            if isinstance(v, ast.List) and not v.elts:
+                kind = 'list'
+            elif isinstance(v, ast.Dict) and not v.keys:
+                kind = 'dict'
+            elif isinstance(v, ast.Call) and not v.args and not v.keywords and src(v.func) in _EMPTY_CTORS:
+                kind = _EMPTY_CTORS[src(v.func)]
+            if kind is None:
+                continue
+            for later in body[i + 1:]:
+                if not touches(later, name):
+                    continue
+                if isinstance(later, ast.For) and not later.orelse:
+                    fills = [s_ for s_ in later.body if touches(s_, name)]
+                    if len(fills) == 1:
+                        f_ = fills[0]
+                        if kind == 'list' and isinstance(f_, ast.Expr) and isinstance(f_.value, ast.Call) and src(f_.value.func) == name + '.append' \
+                                and len(f_.value.args) == 1 and not f_.value.keywords:
+                            out.setdefault(name, []).append((('list', src(later.iter), _placeholders(later.target, [f_.value.args[0]])[0]), later))
+                        elif kind == 'dict' and isinstance(f_, ast.Assign) and len(f_.targets) == 1 and isinstance(f_.targets[0], ast.Subscript) \
+                                and src(f_.targets[0].value) == name:
+                            out.setdefault(name, []).append((('dict', src(later.iter), _placeholders(later.target, [f_.targets[0].slice, f_.value])), later))
+                break
+    return out
